@@ -18,6 +18,7 @@ type Profile struct {
 	ParamRate   int  // percent of random-access units that change parameters (0..100)
 	SmallMax    bool // small SegmentMaxSize with payloads straddling it
 	ConstantLL  bool // C19: constant sample duration, Low-Latency only
+	HalfSecond  bool // sometimes build segments that last exactly N.5 s on whole-nanosecond boundaries
 	Codecs      []string
 	AllowDisk   bool
 	SegCountMax int
@@ -170,6 +171,11 @@ func DrawScript(t *rapid.T, p Profile) Script {
 	}
 
 	nLead := rapid.IntRange(p.LeadUnits[0], p.LeadUnits[1]).Draw(t, "nLead")
+	if variant == VariantMPEGTS && !leadSpec.IsVideo() && !p.Long {
+		// the 100-write rule of audio-only MPEG-TS needs long scripts to complete segments
+		nLead = rapid.IntRange(150, 460).Draw(t, "nLeadAudioTS")
+	}
+	half := p.HalfSecond && leadSpec.IsVideo() && rapid.IntRange(0, 5).Draw(t, "half") == 0
 	start := rapid.OneOf(
 		rapid.Int64Range(0, 10*leadRate),
 		rapid.Int64Range(-10*leadRate, 0),
@@ -196,12 +202,25 @@ func DrawScript(t *rapid.T, p Profile) Script {
 		gop = 300
 	}
 	irregularRA := rapid.IntRange(0, 3).Draw(t, "irregularRA") == 0
+	if half {
+		// segments of exactly N.5 s whose boundaries are whole nanoseconds
+		hs := rapid.SampledFrom([][2]int64{{9000, 5}, {9000, 15}, {9000, 25}, {4500, 10}, {4500, 30}, {45000, 1}, {45000, 3}, {22500, 2}, {22500, 6}}).Draw(t, "halfShape")
+		frameTicks, gop = hs[0], hs[1]
+		frameNS = frameTicks * 1_000_000_000 / leadRate
+		cfg.SegmentMinDuration = gop*frameNS - rapid.SampledFrom([]int64{0, 0, 1, frameNS / 2}).Draw(t, "halfMinSlack")
+		start = (start / 9) * 9
+		irregularRA = false
+		nLead = int(gop)*rapid.IntRange(3, 7).Draw(t, "halfSegs") + 2
+	}
 	durMode := rapid.SampledFrom([]string{"constant", "constant", "jitter", "irregular"}).Draw(t, "durMode")
 	if p.ConstantLL {
 		durMode = "constant"
 	}
 	if p.Durations {
 		durMode = rapid.SampledFrom([]string{"jitter", "irregular", "irregular"}).Draw(t, "durMode2")
+	}
+	if half {
+		durMode = "constant"
 	}
 	midGOP := rapid.IntRange(0, 2).Draw(t, "midGOP") == 0 && leadSpec.IsVideo()
 
@@ -321,6 +340,9 @@ func DrawScript(t *rapid.T, p Profile) Script {
 				op := Op{Track: ti, TS: ts, Size: rapid.IntRange(8, 32).Draw(t, "asize")}
 				if spikeEvery > 0 && rapid.IntRange(0, 2*spikeEvery-1).Draw(t, "aspike") == 0 {
 					op.Size = rapid.IntRange(int(cfg.SegmentMaxSize)/4, int(cfg.SegmentMaxSize)+50).Draw(t, "abig")
+					if op.Size > 6000 {
+						op.Size = 6000 // an ADTS frame cannot carry more than 8191 bytes
+					}
 				}
 				var adv int64
 				if spec.Codec == "aac" {
@@ -345,6 +367,15 @@ func DrawScript(t *rapid.T, p Profile) Script {
 						per = opusDuration(OpusPacket(op.OpusC, 1, nil))
 					}
 					adv = per * int64(op.N)
+					if op.N > 1 && !p.ConstantLL && rapid.Bool().Draw(t, "opusMix") {
+						// packets of different durations inside one write
+						op.OpusMix = true
+						op.OpusF = 1
+						adv = 0
+						for k := 0; k < op.N; k++ {
+							adv += opusDuration(OpusPacket(OpusMixConfig(op.OpusC, k), 1, nil))
+						}
+					}
 				}
 				if !p.ConstantLL && durMode == "irregular" && rapid.IntRange(0, 9).Draw(t, "agap") == 0 {
 					adv += rapid.Int64Range(1, rate/2).Draw(t, "gap")
